@@ -15,7 +15,9 @@ from harness import fakempi
 RULE = ('OnlineVariance stream: 0-40 samples (quota for 0,1,2,3), 1-7 ranks, scalar or 1-4 element values, weights '
         'equal / uniform / 12 decades wide / partly or wholly 1e-300-floored / rescaled by 1e+-120, split strided (rank::size) or arbitrary with forced '
         'empty and one-sample ranks; optimizer stream: 2-14 posterior samples of (planet_radius, T, log H2O) on a '
-        '5-layer TransmissionModel with an in-memory H2O opacity, 1-7 ranks, distinct weights; tied-weights stream '
+        '5-layer TransmissionModel with an in-memory H2O opacity, 1-7 ranks, distinct weights, EVERY derived parameter the '
+        'model offers enabled (logg, avg_T, mu, metallicity, O/H, C/O), a freshly built model in every simulated process, and '
+        'the traces also judged against a second process-local history (samples in reversed order); tied-weights stream '
         '(judged the same way): repeated / zero / all-equal weights on 2-7 ranks. distinct non-trivial = distinct (stream, ranks, samples, weight kind, '
         'split kind, #empty ranks, #one-sample ranks) with non-constant values')
 ASSUMPTIONS = [
@@ -348,6 +350,9 @@ def eval_ov_case(ctx, c, stream='ov'):
 
 # ----------------------------------------------------------------------------- stream B: the optimizer
 _MODEL = {}
+DERIVED_RATIOS = ('O/H', 'C/O')
+# what the fixture must offer (the run stops as an infrastructure failure otherwise: the quota would silently be empty)
+DERIVED_EXPECTED = ('logg', 'mu', 'avg_T', 'metallicity', 'O_H_ratio', 'C_O_ratio')
 
 
 def small_model():
@@ -397,8 +402,11 @@ def small_model():
         condensates = property(lambda self: ['Mg2SiO4'])
         condensateMixProfile = property(lambda self: self._cond)
 
-    chem = CondChemistry(fill_gases=['H2', 'He'], ratio=0.17)
+    # element-based derived parameters (metallicity, X/Y ratios) are functions of the CURRENT mixing profiles: the
+    # chemistry is asked for two ratios, and carries one gas without an opacity table (inactive) so that C/O is defined
+    chem = CondChemistry(fill_gases=['H2', 'He'], ratio=0.17, derived_ratios=list(DERIVED_RATIOS))
     chem.addGas(ConstantGas('H2O', mix_ratio=1e-3))
+    chem.addGas(ConstantGas('CO', mix_ratio=2e-4))
     m = TransmissionModel(planet=Planet(1.0, 1.0), star=BlackbodyStar(5800, 1.0),
                           temperature_profile=Isothermal(1200.0), chemistry=chem, nlayers=5,
                           atm_min_pressure=1e-1, atm_max_pressure=1e6)
@@ -442,10 +450,16 @@ def make_optimizer(samples, weights):
     o.enable_fit('planet_radius')
     o.enable_fit('T')
     o.enable_fit('H2O')
-    o.enable_derived('logg')
-    o.enable_derived('mu')
+    # EVERY derived parameter the forward model offers (planet: logg; temperature: avg_T; chemistry: mu, metallicity and
+    # the requested element ratios): each of them is a function of the state update_model leaves for ONE sample
+    for name in sorted(m.derivedParameters):
+        o.enable_derived(name)
     o.compile_params()
     assert o.fit_names == ['planet_radius', 'T', 'log_H2O'], o.fit_names
+    missing = [d for d in DERIVED_EXPECTED if d not in o.derived_names]
+    if missing:
+        raise C.InfraError('derived parameters %r are not offered by the fixture model (offered: %r)'
+                           % (missing, o.derived_names))
     return o
 
 
@@ -516,10 +530,39 @@ def eval_opt_case(ctx, c):
              bucket='%s:ranks=%d' % (stream, size))
     ctx.bucket('%s:weights:%s' % (stream, c.get('wkind')))
     ctx.bucket('%s:samples-per-rank<1' % stream if n < size else '%s:samples-per-rank>=1' % stream)
+    # every process of a real MPI run builds its own forward model: the single-process reference, every simulated rank and
+    # the second history below each get a freshly built model (a model warmed up by earlier cases and inherited through
+    # fork would make all of them share whatever state earlier evaluations left in it)
+    _MODEL.clear()
     o = make_optimizer(samples, weights)
     ref = opt_run(o, seed)
+    for name in o.derived_names:
+        ctx.bucket('%s:derived:%s' % (stream, name))
+    # -- the quantifier ranges over ALL assignments of samples to ranks: entry i of a trace is the derived value of sample
+    #    i whichever samples the evaluating process handled before it.  One more process-local history (the samples in
+    #    reversed order, through the same public calls the loop of compute_derived_trace makes) must give the same values
+    _MODEL.clear()
+    o2 = make_optimizer(samples, weights)
+    model_obj, _ = small_model()
+    other = {}
+    for i in reversed(range(n)):
+        o2.update_model(samples[i])
+        model_obj.initialize_profiles()
+        for name, v in zip(o2.derived_names, o2.derived_values):
+            other.setdefault(name, {})[i] = float(v)
+    ctx.bucket('%s:derived:other-assignment(reversed)' % stream)
+    for name, byidx in other.items():
+        rv = ref['out'].get(name + '_derived:trace')
+        ov = np.array([byidx[i] for i in range(n)], float)
+        ctx.disagreements_checked += 1
+        if rv is None or rv.shape != ov.shape or not C.close(rv, ov, 1e-9, 1e-300):
+            ctx.violation('derived-trace-per-sample:' + name, 'entry i of the single-process trace of %s is not the derived '
+                          'value of sample i when the same process handles the samples in another order (another '
+                          'assignment of samples to a rank)' % name, small,
+                          dict(param=name, trace=rv, reversed_order=ov))
 
     def target(rank, nproc):
+        _MODEL.clear()
         return opt_run(make_optimizer(samples, weights), seed, rank)
     try:
         out = fakempi.run_ranks(size, target, timeout=300.0)
@@ -659,6 +702,8 @@ def run(ctx):
 def replay(ctx, case):
     if not hasattr(ctx, 'extra') or ctx.extra is None:
         ctx.extra = {}
+    if isinstance(case.get('case'), dict) and 'samples' not in case and 'xs' not in case:
+        case = case['case']          # a replay file written by ./check wraps the input
     if 'samples' in case:
         eval_opt_case(ctx, case)
     else:
